@@ -1082,6 +1082,9 @@ func runC11(w *eng.W) {
 						if l > 2 {
 							alpha = c11BaseKinds
 						}
+						if l > 3 {
+							alpha = 8 // four arguments (two fixed parameters and a tail): the first eight kinds
+						}
 						seqs(alpha, l, func(ai []int) {
 							for _, spread := range []bool{false, true} {
 								c := CallCase{Fixed: fixed, Tail: tail, Ctx: withCtx, Ret: ret, Args: append([]int(nil), ai...), Spread: spread}
